@@ -11,9 +11,12 @@ import (
 )
 
 // generateCookie 生成无状态 DTLCP Cookie
-// 使用 HMAC-SM3(secret, clientAddr || clientParams)
+// 使用 HMAC-SM3(secret, len(clientAddr) || clientAddr || clientParams)
 func generateCookie(secret []byte, clientAddr string, clientParams []byte) []byte {
 	h := hmac.New(sm3.New, secret)
+	// 地址前写入 2 字节长度：否则 addr || params 的拼接有歧义，
+	// 为 ("ip:5", 0x35||p) 签发的 cookie 对 ("ip:55", p) 同样有效。
+	h.Write([]byte{byte(len(clientAddr) >> 8), byte(len(clientAddr))})
 	h.Write([]byte(clientAddr))
 	h.Write(clientParams)
 	return h.Sum(nil)
